@@ -1,4 +1,4 @@
-import vlib, vtmf_common, tracecheck
+import vlib, vtmf_common, qr_common, tracecheck
 PID = "C02"
 EVS = "SSec,Mix,Glue".split(",")
 def run(tier, seed):
@@ -9,6 +9,8 @@ def run(tier, seed):
             return "%s:%s:%s:%s" % (e["e"], e.get("mut"), e.get("res"), str(e.get("ss") or e.get("msg") or e.get("x"))[:80])
         return None
     vtmf_common.record_and_validate(ck, PID, "c02", 400 if tier == "quick" else 6000, seed, interesting)
+    qr_common.run_mc(ck)
+    qr_common.record_and_validate(ck, PID, 150 if tier == "quick" else 3000, seed, ["SSec","Mix"])
     ck.cov["rule"] = "MC_VTMF_stack exhaustive in p=23,q=11; recorded random executions validated by VTMFTrace; a case is a distinct (execution, operation, arguments) triple of the kinds " + ",".join(EVS)
     return ck.finish()
 def replay(path, seed):
